@@ -164,7 +164,30 @@ theorem keep_tree (env : Env) : ∀ (x : Tree) (A A' : List (Nat × Nat)) (tr : 
       · -- the element's own names
         simp only [elementOk, Bool.and_eq_true, elementFullname_ok, attributeFullname_ok,
           List.all_eq_true, Bool.or_eq_true, hattrs] at hwE ⊢
-        refine ⟨?_, ?_⟩
+        obtain ⟨⟨hwD, hwE1⟩, hwE2⟩ := hwE
+        have hwE : _ ∧ _ := ⟨hwE1, hwE2⟩
+        refine ⟨⟨?_, ?_⟩, ?_⟩
+        · -- no default namespace appears: the rebuilt frame is a subset of the old one
+          cases hno : (env.nsOfName name == Env.noNamespace) with
+          | false => simp
+          | true =>
+            simp only [hno, Bool.true_and, Bool.not_eq_eq_eq_not, Bool.not_true] at hwD ⊢
+            cases hd : FStack.hasDefaultNamespace [(Env.xmlPrefix, Env.xmlNamespace) :: (A' ++ f')] with
+            | false => rfl
+            | true =>
+              exfalso
+              simp only [FStack.hasDefaultNamespace, FStack.top, List.headD_cons, List.any_eq_true] at hd
+              obtain ⟨kv, hkv, hcond⟩ := hd
+              have : FStack.hasDefaultNamespace
+                  [(Env.xmlPrefix, Env.xmlNamespace) :: (A ++ declsOfKids ks)] = true := by
+                simp only [FStack.hasDefaultNamespace, FStack.top, List.headD_cons, List.any_eq_true]
+                refine ⟨kv, ?_, hcond⟩
+                simp only [List.mem_cons] at hkv ⊢
+                rcases hkv with h | h
+                · exact .inl h
+                · exact .inr (hsub1 kv h)
+              rw [this] at hwD
+              cases hwD
         · rcases hwE.1 with h | h
           · exact .inl h
           · simp only [knownIn_cons, Bool.or_eq_true] at h ⊢
